@@ -65,30 +65,36 @@ def run_units(units, timeout_ms, total_workers=16):
     # heavy units first (declared weight)
     pending.sort(key=lambda i: -getattr(units[i][0], "weight", {}).get(units[i][1], 1) if isinstance(getattr(units[i][0], "weight", None), dict) else 0)
     running = {}
-    while pending or running:
-        while pending and len(running) < conc:
-            i = pending.pop(0)
-            rfd, wfd = os.pipe()
-            pid = os.fork()
-            if pid == 0:
-                os.close(rfd)
+    import tempfile
+    import shutil
+    tmpd = tempfile.mkdtemp(prefix="verif-units-", dir=os.environ.get("VERIF_SCRATCH"))
+    try:
+        while pending or running:
+            while pending and len(running) < conc:
+                i = pending.pop(0)
+                out_path = os.path.join(tmpd, "%d.pkl" % i)
+                pid = os.fork()
+                if pid == 0:
+                    try:
+                        c, ov = units[i]
+                        ur = U.verify_unit(c, ov, timeout_ms=timeout_ms, workers=per)
+                        data = pickle.dumps(ur.as_dict())
+                    except BaseException as e:      # pragma: no cover
+                        data = pickle.dumps({"__error__": "%r\n%s" % (e, traceback.format_exc())})
+                    with open(out_path, "wb") as f:
+                        f.write(data)
+                    os._exit(0)
+                running[pid] = (i, out_path)
+            pid, _status = os.wait()
+            if pid in running:
+                i, out_path = running.pop(pid)
                 try:
-                    c, ov = units[i]
-                    ur = U.verify_unit(c, ov, timeout_ms=timeout_ms, workers=per)
-                    data = pickle.dumps(ur.as_dict())
-                except BaseException as e:      # pragma: no cover
-                    data = pickle.dumps({"__error__": "%r\n%s" % (e, traceback.format_exc())})
-                with os.fdopen(wfd, "wb") as f:
-                    f.write(data)
-                os._exit(0)
-            os.close(wfd)
-            running[pid] = (i, rfd)
-        pid, _status = os.wait()
-        if pid in running:
-            i, rfd = running.pop(pid)
-            with os.fdopen(rfd, "rb") as f:
-                data = f.read()
-            results[i] = pickle.loads(data) if data else {"__error__": "unit worker died"}
+                    with open(out_path, "rb") as f:
+                        results[i] = pickle.loads(f.read())
+                except Exception:
+                    results[i] = {"__error__": "unit worker died"}
+    finally:
+        shutil.rmtree(tmpd, ignore_errors=True)
     return results
 
 
